@@ -16,10 +16,13 @@ impl Code {
     pub fn parse(interpreter: &Interpreter, script: &str) -> Result<Self, Error> {
         let parse = SimpleSLParser::parse(Rule::input, script)?;
         let mut local_variables = LocalVariables::new(interpreter);
+        // the folding pass keeps its own view of the declarations: while a statement is folded
+        // the names it declares itself must still denote the previous declarations
+        let mut folded_variables = LocalVariables::new(interpreter);
         let instructions = parse
             .map(|pair| {
                 InstructionWithStr::new(pair, &mut local_variables)
-                    .and_then(|iws| Ok(iws.recreate(&mut local_variables)?))
+                    .and_then(|iws| Ok(iws.recreate(&mut folded_variables)?))
             })
             .collect::<Result<_, Error>>()?;
         Ok(Self { instructions })
